@@ -100,12 +100,17 @@ static int mu_try_acquire_after_timeout_or_cancel (nsync_mu *mu, lock_type *l_ty
 		mu->waiters = nsync_remove_from_mu_queue_ (mu->waiters, &w->nw.q);
 		ATM_STORE (&w->nw.waiting, 0);
 
-		/* Release spinlock but keep desired lock type. */
-		ATM_STORE_REL (&mu->word, old_word+l_type->add_to_acquire); /* release store */
+		/* Release spinlock but keep desired lock type.
+		   old_word is the value before the acquiring CAS above, so
+		   it may still contain MU_WRITER_WAITING (possibly set by the
+		   loop above); that CAS cleared the bit, and it must not be
+		   put back, or it could be left set with no writer waiting. */
+		ATM_STORE_REL (&mu->word, (old_word & ~MU_WCLEAR_ON_ACQUIRE) +
+					  l_type->add_to_acquire); /* release store */
 		success = 1;
 	} else {
 		/* Release spinlock and *mu. */
-		ATM_STORE_REL (&mu->word, old_word); /* release store */
+		ATM_STORE_REL (&mu->word, old_word & ~MU_WCLEAR_ON_ACQUIRE); /* release store */
 	}
 	RWLOCK_TRYACQUIRE (success, mu, l_type == nsync_writer_type_);
 	return (success);
